@@ -5,7 +5,7 @@ SPEC = dict(
     props_extra=[('Props/C05Link.v', 'Props.C05Link')],
     proof_files=['Proofs/Rescale.v', 'Proofs/Ctrl.v', 'Proofs/CtrlC05.v', 'Drv/CtrlC05.v', 'Drv/StartupC05.v'],
     tie_vo=['Proofs/LeafTie.vo', 'Proofs/ConstsTie_basic.vo', 'Proofs/ConstsTie_clamp.vo', 'Proofs/ConstsTie_stall.vo', 'Proofs/LeafTie2_calcTarget.vo', 'Proofs/LeafTie2_DirectCycle.vo', 'Proofs/LeafTie2_PidCycle.vo', 'Proofs/LeafTie2_applyPwmMapping.vo', 'Proofs/LeafTie2_HwMonGetMinPwm.vo', 'Proofs/LeafTie2_HwMonGetMaxPwm.vo', 'Proofs/LeafTie2_HwMonGetRpmAvg.vo', 'Proofs/LeafTie2_HwMonSetRpmAvg.vo', 'Proofs/LeafTie2_HwMonShouldNeverStop.vo'],
-    drivers=[dict(name='ctrl', drv_mod='Drv.CtrlC05', drv_file='Drv/CtrlC05.v', shard=100,
+    drivers=[dict(name='ctrl', drv_mod='Drv.CtrlC05', drv_file='Drv/CtrlC05.v', shard=100, extra_mods=[('Drv.CtrlC04Step', 'Drv/CtrlC04Step.v')],
                   args={'quick': ['n=600'], 'thorough': ['n=4000']}, timeout={'quick': 900, 'thorough': 6000}),
              # the start-up driver of C15 as a second driver: the first control cycles after every kind of start
              dict(name='startup', drv_mod='Drv.StartupC05', drv_file='Drv/StartupC05.v', shard=30,
